@@ -3,6 +3,7 @@ package main
 import (
 	"encoding/json"
 	"fmt"
+	"time"
 	"math/rand"
 	"os"
 	"path/filepath"
@@ -190,6 +191,12 @@ func (namesStream) Execute(c Case) {
 		changed, newDirs := diffTree(before, after)
 		obs["err"] = err != nil
 		obs["changed"], obs["newdirs"] = hxList(changed), hxList(newDirs)
+		if shadowRuns < 6 {
+			shadowRuns++
+			if msg := shadowRemoval(shadowRuns%2 == 0); msg != "" {
+				obs["aux"] = []any{msg}
+			}
+		}
 		obs["specpath"] = ""
 		if err == nil {
 			_ = cache.Refresh()
@@ -257,4 +264,52 @@ func (namesStream) Execute(c Case) {
 			}
 		}
 	}
+}
+
+var shadowRuns int
+
+// shadowRemoval: a Spec written into the last directory shadows a definition of the same device in an earlier one; it is
+// removed again. At every moment the device resolves: to the written definition (the snapshot before the removal) or
+// to the earlier one (after it) - never to nothing, with or without a refresh in between.
+func shadowRemoval(auto bool) string {
+	root := namesRoot + "-shadow"
+	_ = os.RemoveAll(root)
+	defer os.RemoveAll(root)
+	lo, hi := filepath.Join(root, "lo"), filepath.Join(root, "hi")
+	_ = os.MkdirAll(lo, 0o755)
+	_ = os.MkdirAll(hi, 0o755)
+	low := namesSpec("shadow.com", "cls")
+	low.Devices[0].ContainerEdits.Env = []string{"FROM=lo"}
+	b, _ := json.Marshal(low)
+	_ = os.WriteFile(filepath.Join(lo, "base.json"), b, 0o644)
+	cache, _ := cdi.NewCache(cdi.WithSpecDirs(lo, hi), cdi.WithAutoRefresh(auto))
+	defer func() { _ = cache.Configure(cdi.WithAutoRefresh(false)) }()
+	high := namesSpec("shadow.com", "cls")
+	high.Devices[0].ContainerEdits.Env = []string{"FROM=hi"}
+	if cache.WriteSpec(high, "shadow") != nil {
+		return ""
+	}
+	_ = cache.Refresh()
+	q := "shadow.com/cls=" + low.Devices[0].Name
+	for deadline := time.Now().Add(3 * time.Second); time.Now().Before(deadline); time.Sleep(10 * time.Millisecond) {
+		if d := cache.GetDevice(q); d != nil && len(d.ContainerEdits.Env) == 1 && d.ContainerEdits.Env[0] == "FROM=hi" {
+			break
+		}
+	}
+	if cache.RemoveSpec("shadow") != nil {
+		return ""
+	}
+	for i := 0; i < 50; i++ {
+		if cache.GetDevice(q) == nil {
+			return fmt.Sprintf("after RemoveSpec of a Spec that shadowed a lower-priority definition, %s resolves to nothing (auto-refresh %v, query %d)", q, auto, i)
+		}
+		if i == 25 {
+			_ = cache.Refresh()
+		}
+		time.Sleep(2 * time.Millisecond)
+	}
+	if d := cache.GetDevice(q); d == nil || d.ContainerEdits.Env[0] != "FROM=lo" {
+		return "after RemoveSpec and Refresh the lower-priority definition is not the one in force"
+	}
+	return ""
 }
